@@ -226,9 +226,11 @@ def msg_combo_cases(case, seed=1):
     BY = [("bytes", B(b"sg"), True), ("empty", B(b""), True), ("nil", NULL, False), ("text", T(""), False)]
     def sig(n): return A(B(b""), M(), B(bytes([n])))
     def rec(n, nested=None): return ('a', [B(b""), M(), B(bytes([n]))] + ([nested] if nested is not None else []))
-    SIGS = [("none", A(), True), ("one", A(sig(1)), True), ("three", A(sig(1), sig(2), sig(3)), True), ("bad", A(sig(1), A(B(b""), M())), False), ("notarr", M(), False)]
+    SIGS = [("none", A(), True), ("one", A(sig(1)), True), ("three", A(sig(1), sig(2), sig(3)), True), ("bad", A(sig(1), A(B(b""), M())), False), ("notarr", M(), False),
+            ("bare", sig(1), False), ("bare-hdr", A(B(b"\xa1\x01\x26"), M((I(4), B(b"k"))), B(b"s")), False), ("nested-list", A(A(sig(1))), False)]
     RECS = [("none", A(), True), ("one", A(rec(1)), True), ("three", A(rec(1), rec(2), rec(3)), True), ("nested", A(rec(1, A(rec(2), rec(3, A(rec(4)))))), True),
-            ("nested-empty", A(rec(1, A())), True), ("bad", A(rec(1), ('a', [B(b""), M()])), False), ("five", A(('a', [B(b""), M(), NULL, A(), NULL])), False), ("notarr", NULL, False)]
+            ("nested-empty", A(rec(1, A())), True), ("bad", A(rec(1), ('a', [B(b""), M()])), False), ("bare", rec(1), False), ("bare4", rec(1, A(rec(2))), False),
+            ("nested-list", A(A(rec(1))), False), ("five", A(('a', [B(b""), M(), NULL, A(), NULL])), False), ("notarr", NULL, False)]
     EXTRA = [("exact", 0), ("plus1", 1), ("minus1", -1)]
     shapes = {"CoseSign1": [P, U, PL, BY], "CoseMac0": [P, U, PL, BY], "CoseEncrypt0": [P, U, PL], "CoseSignature": [P, U, BY],
               "CoseSign": [P, U, PL, SIGS], "CoseMac": [P, U, PL, BY, RECS], "CoseEncrypt": [P, U, PL, RECS], "CoseRecipient": [P, U, PL, RECS]}
@@ -245,6 +247,10 @@ def msg_combo_cases(case, seed=1):
             b = enc(('a', items), rng if style == "noncanon" else None, style="nobignum")
             out.append(case("dec", ty, b, fam="combo-msg:" + ty, expect_re=(r"ok .*" if valid else r"err:\w+")))
             if valid:
+                # the same bytes through every other structure decoder (several types share a shape): decided by the model
+                for other in shapes:
+                    if other != ty and len(shapes[other]) == len(slots):
+                        out.append(case("dec", other, b, fam="combo-msg-as:" + other))
                 out.append(case("rt", ty, b, fam="combo-msg-rt:" + ty, expect_re=r"ok [0-9a-f]+ T T"))
                 if ty in MSG_TAG:
                     out.append(case("rttag", ty, head(6, MSG_TAG[ty]) + b, fam="combo-msg-rttag:" + ty, expect_re=r"ok [0-9a-f]+ T T"))
